@@ -1172,7 +1172,7 @@ impl<'a> Builder<'a> {
                     }
                 }
             }
-            Op::Cycle | Op::Flush | Op::Signal(_) | Op::Wait(_) | Op::Fill { .. } | Op::BusyWait { .. } | Op::BuildEvent { .. } | Op::SetReporter | Op::Warm | Op::RandomIds | Op::AtThreadExit { .. } => {}
+            Op::Cycle | Op::Flush | Op::Signal(_) | Op::Wait(_) | Op::Fill { .. } | Op::BusyWait { .. } | Op::BuildEvent { .. } | Op::SetReporter | Op::ChurnScopes { .. } | Op::Warm | Op::RandomIds | Op::AtThreadExit { .. } => {}
             Op::RootRandom { slot, .. } => {
                 // the trace id is not known to the model: nothing is defined for this trace
                 let name = format!("noop@{}.{}.{}", actor, idx, self.next_order());
